@@ -39,8 +39,7 @@ def r1(ctx):
     db = minidb.MiniDB()
     db.script(script)
     db.execute("INSERT INTO features (id) VALUES (?)", ("old",))
-    im2 = scen.Import(ctx, "_GFFDBCreator", db=db)
-    im2.me.attrs["iterator"] = scen.IterVal(scen.gff_lines())
+    im2 = scen.Import(ctx, "_GFFDBCreator", db=db, lines=scen.gff_lines())
     t2 = im2.call("create")
     kept = [r[0] for r in db.rows("features", ["id"])]
     ok = t2.result[0] == "raise" and "OperationalError" in str(t2.result[1]) and kept == ["old"]
